@@ -371,6 +371,39 @@ class Expander:
             al = d.extra
             return ("global", func.module.imports.get(d.var, getattr(al, "name", d.var)))
         if k == "match":
+            # a capture of a `case` pattern: the component of the subject it stands for
+            tgt = d.target
+            case = getattr(node, "ast", None)
+            mt = parent(case) if case is not None else None
+            if isinstance(mt, ast.Match) and isinstance(tgt, ast.MatchAs) and tgt.pattern is None and isinstance(case, ast.match_case):
+                def locate(p, cur):
+                    if p is tgt:
+                        return cur
+                    if isinstance(p, ast.MatchAs) and p.pattern is not None:
+                        return locate(p.pattern, cur)
+                    if isinstance(p, ast.MatchSequence) and not any(isinstance(x, ast.MatchStar) for x in p.patterns):
+                        for i, x in enumerate(p.patterns):
+                            r = locate(x, _project(cur, (i,)))
+                            if r is not None:
+                                return r
+                    if isinstance(p, ast.MatchClass):
+                        for a_, x in zip(p.kwd_attrs, p.kwd_patterns):
+                            r = locate(x, ("attr", cur, a_))
+                            if r is not None:
+                                return r
+                    if isinstance(p, ast.MatchOr):
+                        for x in p.patterns:
+                            r = locate(x, cur)
+                            if r is not None:
+                                return r
+                    return None
+
+                # the subject is evaluated where the match statement starts
+                subj_nodes = self.df(func).cfg.node_containing(mt.subject)
+                subj = self.expr(mt.subject, func, subj_nodes[0] if subj_nodes else node, {}, depth)
+                r = locate(case.pattern, subj)
+                if r is not None:
+                    return r
             return ("unknown", "match-capture")
         return ("unknown", k)
 
